@@ -45,8 +45,10 @@ class _PlCore(Contract):
         lf = PP.FrameP.fresh("lf", columns=("a", "b"), kinds={"a": "real", "b": "real"}, nan_columns=("a",) if is_float else None)
         cur().ghost["lf"] = lf
         cur().ghost["is_float"] = is_float
+        sel = "^(a|b)$" if self.fixed.get("selector", "a") == "regex" else "a"
+        cur().ghost["selected"] = ["a", "b"] if sel != "a" else ["a"]
         return {"self": T.Ref(B).fresh("self"), "check_obj": lf,
-                "schema": T.Ref(None, nullable=T.Bool, unique=T.Bool, selector=T.Const("a"), name=T.Const("a")).fresh("schema")}
+                "schema": T.Ref(None, nullable=T.Bool, unique=T.Bool, selector=T.Const(sel), name=T.Const(sel)).fresh("schema")}
 
     def call_target(self, I, fn, a):
         return I.call(fn, [a["self"], a["check_obj"], a["schema"]], {})
@@ -65,6 +67,40 @@ class _PlCore(Contract):
             out["failure_cases_show_the_checked_column_only"] = list(fc.cols) == ["a"]
         else:
             out["failure_cases_are_a_frame"] = isinstance(fc, PP.FrameP)
+        return out
+
+
+class PolarsCheckNullableRegex(_PlCore):
+    """a regex selector that matches two columns: one result per matched column that holds a null, each with a ONE-column row mask of
+    THAT column's nulls (the mask drop_invalid_rows and the report read)"""
+
+    target = f"{COLP}.check_nullable.__wrapped__"
+    split = {"selector": ["regex"]}
+
+    def ensures(self, result, old, self_, check_obj, schema):
+        lf = cur().ghost["lf"]
+        rs = self.results(result)
+        out = {"returns_results": rs is not None}
+        if rs is None:
+            return out
+        nullable = fld0(schema, "nullable")
+        i = z3.Int(cur().fresh_name("row"))
+        core.register_model_var("row", i)
+        any_null = SBool(z3.Exists([i], z3.And(lf.sel(i), z3.Or(lf.cols["a"].null(i), lf.cols["b"].null(i)))))
+        accepted = And(*[py_eq(r.attrs["passed"], True) for r in rs]) if rs else True
+        out["verdict"] = Iff(accepted, Or(nullable, Not(any_null)))
+        j = z3.Int(cur().fresh_name("j"))
+        for r in rs:
+            if r.attrs.get("passed") is True:
+                continue
+            co = r.attrs.get("check_output")
+            ok = isinstance(co, PP.FrameP) and list(co.cols) == [KEY] and co.space is lf.space
+            out["each_failing_result_carries_a_one_column_row_mask"] = out.get("each_failing_result_carries_a_one_column_row_mask", True) and ok
+            if ok:
+                m = core.as_z3_bool(co.cols[KEY].at(j))
+                is_a = SBool(z3.ForAll([j], z3.Implies(lf.sel(j), m == z3.Not(lf.cols["a"].null(j)))))
+                is_b = SBool(z3.ForAll([j], z3.Implies(lf.sel(j), m == z3.Not(lf.cols["b"].null(j)))))
+                out["the_mask_is_the_null_mask_of_one_matched_column"] = And(out.get("the_mask_is_the_null_mask_of_one_matched_column", True), Or(is_a, is_b))
         return out
 
 
@@ -270,4 +306,4 @@ def _standin(which):
 PolarsCheckNullable.bounded_standin = staticmethod(_standin("nullable"))
 PolarsCheckUnique.bounded_standin = staticmethod(_standin("unique"))
 
-CONTRACTS = [PolarsCheckNullable, PolarsCheckUnique, PolarsCheckDtype, IsFloatDtype]
+CONTRACTS = [PolarsCheckNullable, PolarsCheckNullableRegex, PolarsCheckUnique, PolarsCheckDtype, IsFloatDtype]
